@@ -26,6 +26,7 @@ type Ctx struct {
 	contracts  map[string]map[string]*Contract
 	externs    map[string]*Contract
 	uninterp   map[string]bool
+	recursive  map[string]bool
 	guards     map[string][]*GuardDecl
 	ctors      map[string]bool
 	ghostFiles map[string]bool
@@ -47,7 +48,7 @@ func loadCtx(repoDir string, patterns []string) (*Ctx, error) {
 		return nil, err
 	}
 	c := &Ctx{pkgs: map[string]*packages.Package{}, contracts: map[string]map[string]*Contract{}, externs: map[string]*Contract{},
-		uninterp: map[string]bool{}, guards: map[string][]*GuardDecl{}, ctors: map[string]bool{}, ghostFiles: map[string]bool{},
+		uninterp: map[string]bool{}, recursive: map[string]bool{}, guards: map[string][]*GuardDecl{}, ctors: map[string]bool{}, ghostFiles: map[string]bool{},
 		decls: map[types.Object]*ast.FuncDecl{}, declPkg: map[types.Object]*packages.Package{}, files: map[string]*ast.File{},
 		sentinels: map[string]int{}, hwMemo: map[*ssa.Function]map[string]types.Type{}, funcsByKey: map[string]*ssa.Function{}, repoDir: repoDir}
 	c.roots = pkgs
